@@ -1719,6 +1719,8 @@ EXEC = None   # set by bin/check: runs an op list on the implementation and retu
 
 def is_decoy_line(line):
     t = line.split()
+    if len(t) > 2 and t[0] in ('group-new', 'group-add') and t[2].isdigit() and 1000 <= int(t[2]) < 2000:
+        return True      # a decoy router created in / added to an observed group
     return len(t) > 1 and t[1].isdigit() and 1000 <= int(t[1]) < 2000
 
 def judge_c07_decoys(ops, impl):
